@@ -21,7 +21,8 @@ RULE = ("fault = crash of the running model (no finish(), open handles dropped) 
         "variables, EF/RK2/RK4, split output, durations on and off the period grid) EVERY completed file k of U is a "
         "restart point (up to 6 per U): the model is really run again and killed at a seeded step between the close of "
         "file k and the close of file k+1, only the files whose last record had been written are copied to a fresh "
-        "directory, and a new run warm-starts from file k with the same or an earlier stop (on or off the period "
+        "directory (for a share of the restart points the run dies later, so that newer completed files exist and are "
+        "overwritten), and a new run warm-starts from file k with the same or an earlier stop (on or off the period "
         "grid); chains of up to three crash/restart generations. Every record of a restarted run before its own stop "
         "time must equal U's record of that time (pids exactly, values to 1e-5 cells / 1e-9 relative, particle "
         "variables, file names continuing U's numbering). Non-trivial: a restart after which >= 1 record with "
@@ -35,7 +36,7 @@ ASSUMPTIONS = ["a file counts as completed when its numrec-th record has been wr
                "a trailing record exactly at the restarted run's stop time is not judged"]
 TIERS = {"quick": dict(runs=320, budget_s=60, shrink=60, reps_per_tag=1),
          "thorough": dict(runs=15000, budget_s=1200, shrink=120, reps_per_tag=2)}
-REQUIRED_PROBES = ["restart", "chain2", "chain3", "stop_off_grid", "pending_release_at_restart", "death_before_restart",
+REQUIRED_PROBES = ["restart", "restart_from_older_file", "chain2", "chain3", "stop_off_grid", "pending_release_at_restart", "death_before_restart",
                    "crash_in_partial_file", "particle_variables", "rk"]
 
 PROFILE = gen.profile(
@@ -54,7 +55,7 @@ def generate(seed: int, tier: str, idx: int) -> dict:
     gen.make_restartable(sc)
     plan = {"points": [], "chain": []}
     for _ in range(6):
-        plan["points"].append({"crash_frac": round(s.random(), 3),
+        plan["points"].append({"crash_frac": round(s.random(), 3), "late": s.chance(0.3),
                                "stop": s.wpick([("same", 3), ("earlier_on", 1), ("earlier_off", 1)]),
                                "stop_frac": round(s.random(), 3)})
     if s.chance(0.5):
@@ -183,6 +184,11 @@ def execute(sc) -> Result:
             nxt_close = min(((k + 2) * numrec - 1) * p, nsteps - 1)
             # the model is killed after `s` calls of update(): steps 0..s-1 done
             s = last_step + 1 + int(pp["crash_frac"] * (nxt_close - last_step))
+            if pp.get("late"):
+                # the run dies much later: newer completed files exist too, the restart still uses file k
+                # and overwrites them
+                s = last_step + 1 + int(pp["crash_frac"] * (nsteps - last_step - 1))
+                res.probes["restart_from_older_file"] += 1
             s = min(max(s, last_step + 1), nsteps)
             gen_dirs = self_restart(res, sc, U, Urec_by_time, writesU, dU, k, s, pp, plan["chain"], dirs, keys)
         res.history_key = "|".join(keys)
